@@ -41,15 +41,25 @@ def _bind(b, name, kind, shape, concrete):
             b.free(name, shape)
 
 
-def regression_case(Dw, Dy, N, concrete=(), timeout=900, cond="full", via="Sigma"):
-    cid = f"C11/regression/Dw{Dw}Dy{Dy}N{N}" + ("/concrete-" + "-".join(concrete) if concrete else "") + (f"/{cond}-via{via}" if (cond, via) != ("full", "Sigma") else "")
+def regression_case(Dw, Dy, N, concrete=(), timeout=900, cond="full", via="Sigma", prior_via="Sigma"):
+    """prior_via: how the prior density is built -- 'Sigma' (covariance only), 'SigmaLambda' (covariance and a consistent
+    precision, log-determinant left to the constructor), 'all' (covariance, precision and log-determinant), 'measure'
+    (GaussianMeasure(Lambda, nu).get_density()), 'diag' (GaussianDiagPDF)"""
+    cid = f"C11/regression/Dw{Dw}Dy{Dy}N{N}" + ("/concrete-" + "-".join(concrete) if concrete else "") + (f"/{cond}-via{via}" if (cond, via) != ("full", "Sigma") else "") + (f"/prior-{prior_via}" if prior_via != "Sigma" else "")
     cfg = dict(workflow="Bayesian linear regression, three routes, all update orders", Dw=Dw, Dy=Dy, N=N, concrete_blocks=list(concrete),
                conditional_class=cond, constructed_from=via)
     perms = list(itertools.permutations(range(N)))
     cond_kind = cond
 
     def declare(b):
-        _bind(b, "Sw", "spd", (1, Dw), "Sw" in concrete)
+        if prior_via == "diag":
+            b.diag("Sw", 1, Dw)
+        else:
+            _bind(b, "Sw", "spd", (1, Dw), "Sw" in concrete)
+        if prior_via in ("SigmaLambda", "all", "measure"):
+            from .c02 import _inv_of, _lndet_of
+            b.derived("Lw", (1, Dw, Dw), _inv_of("Sw", 1, Dw))
+            b.derived("ldw", (1,), _lndet_of("Sw", 1))
         b.free("mw", (1, Dw))
         _bind(b, "M", "free", (N, Dy, Dw), "M" in concrete)
         b.free("bb", (N, Dy))
@@ -65,7 +75,16 @@ def regression_case(Dw, Dy, N, concrete=(), timeout=900, cond="full", via="Sigma
     def fn(**A):
         import jax.numpy as jnp
         factor, measure, pdf, conditional = gt()
-        prior = pdf.GaussianPDF(Sigma=A["Sw"], mu=A["mw"])
+        if prior_via == "Sigma":
+            prior = pdf.GaussianPDF(Sigma=A["Sw"], mu=A["mw"])
+        elif prior_via == "diag":
+            prior = pdf.GaussianDiagPDF(Sigma=A["Sw"], mu=A["mw"])
+        elif prior_via == "SigmaLambda":
+            prior = pdf.GaussianPDF(Sigma=A["Sw"], mu=A["mw"], Lambda=A["Lw"])
+        elif prior_via == "all":
+            prior = pdf.GaussianPDF(Sigma=A["Sw"], mu=A["mw"], Lambda=A["Lw"], ln_det_Sigma=A["ldw"])
+        else:
+            prior = measure.GaussianMeasure(Lambda=A["Lw"], nu=jnp.einsum("rij,rj->ri", A["Lw"], A["mw"]), ln_beta=jnp.ones((1,))).get_density()
         ccls = conditional.ConditionalGaussianDiagPDF if cond_kind == "diag" else conditional.ConditionalGaussianPDF
         covkw = {"Lambda": A["Ly"]} if via == "Lambda" else {"Sigma": A["Sy"]}
         cond = ccls(M=A["M"], b=A["bb"], **covkw)
@@ -216,6 +235,9 @@ def cases(tier, seed=0):
            regression_case(1, 1, 2, cond="diag", via="Lambda"),
            regression_case(1, 1, 2, cond="full", via="Lambda"),
            regression_case(1, 1, 2, cond="diag", via="Sigma"),
+           regression_case(1, 1, 2, prior_via="SigmaLambda"), regression_case(1, 1, 2, prior_via="all"),
+           regression_case(1, 1, 2, prior_via="measure"), regression_case(1, 1, 2, prior_via="diag"),
+           regression_case(2, 1, 2, concrete=("M", "Sy"), prior_via="SigmaLambda"), regression_case(2, 1, 2, concrete=("M", "Sy"), prior_via="diag"),
            kalman_case(1, 1, 2),
            kalman_case(2, 1, 2, concrete=("A", "Q", "C", "R", "S0")),
            kalman_case(2, 1, 2, concrete=("A", "Q", "R", "S0")),
